@@ -24,8 +24,8 @@ def fixed_cases_for(tier, styles=(None, "jcl"), step=1):
     for i, f in enumerate(corpus.files()[::step]):
         if len(corpus.lines(f)) > MAXLINES[tier] or (tier == "quick" and i % 2):
             continue
-        reps = 1 if tier == "quick" else 3
-        for rep in range(reps):
+        reps = [(i // 2) % 3] if tier == "quick" else [0, 1, 2]
+        for rep in reps:
             lv = 1 + (i + rep) % 4
             out.append({"file": f, "level": lv, "lseed": common.stable_seed(f, lv, rep), "tabs": rep == 2, "style": (None, "jcl", "indent_only")[rep % 3], "conf": None})
     out.extend(option_sweep_cases(tier))
